@@ -21,10 +21,14 @@ pub mod c18;
 pub mod c19;
 pub mod c23;
 pub mod c36;
+pub mod c22;
+pub mod c25;
 pub mod c32;
 
 pub fn registry() -> Vec<(&'static str, fn() -> Property)> {
     vec![
+        ("C25", c25::property),
+        ("C22", c22::property),
         ("C06", c06::property),
         ("C02", c02::property),
         ("C01", c01::property),
